@@ -127,6 +127,7 @@ fn attempt_steps(kind: AttemptKind, secs: u16) -> Vec<Step> {
             Step::Csr { ctx: SCtx::Pase, update: false },
             Step::AddRoot { ctx: SCtx::Pase, fab_b: false },
             Step::AddNoc { ctx: SCtx::Pase, fab_b: false },
+            Step::SetVid { ctx: SCtx::Pase, n: 1 },
             Step::AddWifi { ctx: SCtx::Pase, n: 2 },
         ],
         AttemptKind::SecondOverPase => vec![
@@ -134,12 +135,14 @@ fn attempt_steps(kind: AttemptKind, secs: u16) -> Vec<Step> {
             Step::Csr { ctx: SCtx::Pase, update: false },
             Step::AddRoot { ctx: SCtx::Pase, fab_b: true },
             Step::AddNoc { ctx: SCtx::Pase, fab_b: true },
+            Step::SetVid { ctx: SCtx::Pase, n: 2 },
             Step::AddWifi { ctx: SCtx::Pase, n: 3 },
         ],
         AttemptKind::UpdateNoc => vec![
             Step::Arm { ctx: SCtx::CaseA, secs },
             Step::Csr { ctx: SCtx::CaseA, update: true },
             Step::UpdateNoc { ctx: SCtx::CaseA, fab_b: false },
+            Step::SetVid { ctx: SCtx::CaseA, n: 3 },
         ],
         AttemptKind::CaseSettings => vec![
             Step::Arm { ctx: SCtx::CaseA, secs },
@@ -306,6 +309,7 @@ fn with_ctx(step: &Step, ctx: SCtx) -> Step {
         Step::WriteAcl { n, .. } => Step::WriteAcl { ctx, n },
         Step::GroupKeyMap { g, .. } => Step::GroupKeyMap { ctx, g },
         Step::AddGroup { g, name, .. } => Step::AddGroup { ctx, g, name },
+        Step::SetVid { n, .. } => Step::SetVid { ctx, n },
         s => s,
     }
 }
@@ -353,7 +357,13 @@ pub fn build(sc: &Scenario) -> Built {
         Tamper::WrongCtx(i) => {
             // never the Arm itself (index 0): that would just make another context the armer
             let i = 1 + (i % (n - 1)) as usize;
-            att[i] = with_ctx(&att[i], other_ctx(kind, needs_pre));
+            // Only for the commands that are bound to the arming context. A settings command
+            // (ACL, groups, VID statement) issued by ANOTHER administrator on its OWN fabric
+            // while a fail-safe is armed is that administrator's ordinary, permanent change and
+            // not something "the commissioning in progress changed".
+            if !matches!(att[i], Step::SetVid { .. } | Step::WriteAcl { .. } | Step::AddGroup { .. } | Step::GroupKeyMap { .. }) {
+                att[i] = with_ctx(&att[i], other_ctx(kind, needs_pre));
+            }
         }
         Tamper::Omit(i) => {
             let i = 1 + (i % (n - 1)) as usize;
